@@ -66,6 +66,7 @@ BLOCKING = {
     'std::thread::join_handle::JoinHandle::join': 'JoinHandle::join',
     'std::sync::mpsc::Receiver::recv': 'Receiver::recv',
     'std::sync::mpsc::Receiver::recv_timeout': 'Receiver::recv',
+    'std::sync::mpsc::Receiver::recv_iter': 'Receiver::recv',
     'std::sync::barrier::Barrier::wait': 'Barrier::wait',
 }
 
